@@ -119,6 +119,7 @@ def _walk(G, x, y, m):
 
 
 SPEC = {
+    'nbrsum': (lambda G, u, n: float(sum(_mat(G)[v, w] for v in range(int(n)) for w in range(int(n)) if _mat(G)[u, v] != 0 and _mat(G)[u, w] != 0))),
     'wwalkr': _wwalkr, 'sdist': _sdist, 'walk': _walk, 'wd': _wd, 'Qrawg': _Qrawg, 'msq': (lambda W, c, x, k, n: float(sum(_modsum(_mat(W), c, x, m, n) ** 2 for m in range(int(k))))), 'QrawB': (lambda B, c, n: float((_mat(B)[:n, :n] * (np.asarray(c)[:n, None] == np.asarray(c)[None, :n])).sum())), 'umul': (lambda a, b: a * b), 'udiv': (lambda a, b: a / b),
     'rcnt': lambda M, x, n: int(np.count_nonzero(_mat(M)[x, :n])), 'ccnt': lambda M, y, n: int(np.count_nonzero(_mat(M)[:n, y])),
     'rsum': lambda M, x, n: float(_mat(M)[x, :n].sum()), 'csum': lambda M, y, n: float(_mat(M)[:n, y].sum()),
